@@ -8,6 +8,9 @@ pub mod rng;
 
 #[cfg(feature = "simalloc")]
 pub mod alloc;
+#[cfg(not(feature = "simalloc"))]
+#[path = "alloc_stub.rs"]
+pub mod alloc;
 
 #[cfg(feature = "sched")]
 pub mod atomic;
